@@ -35,7 +35,7 @@ KV_NAMES = ("metadata", "validation", "connectionoptions", "values")
 HEXES = ["#FF00aa", "#abc", "#00ff0080", "#ABC", "#000000", "#ffFFff", "#12345678", "#a1B2c3"]
 BIND_NAMES = ["item", "NAME", "my_attr", "x1", "pop_2000", "a"]
 REGEXES = ["/^a.b$/", "/x|y/", "/a b/", "/^[0-9]+$/", "/./", "/(a|b)c/"]
-LISTX = ["{a,b,c}", "{1,2,3}", "{road,rail}", "{x}"]
+LISTX = ["{a,b,c}", "{1,2,3}", "{road,rail}", "{x}", "{a, b}", "{rail road,b}", "{ a ,b }", "{A,b,C}"]
 KV_KEYS = ["wms_title", "WMS_SRS", "k 1", "a", "ows_enable_request", "Wfs_Abstract", "gml_include_items", "x", "key2",
            "default_x", "qstring", "oWs_TiTle"]
 CONFIG_KEYS = ["MS_ERRORFILE", "proj_lib", "On_Missing_Data", "CGI_CONTEXT_URL", "MS_ENCRYPTION_KEY", "my_key", "PROJ_LIB"]
